@@ -67,7 +67,9 @@ def handleC05 (args : List Sexp) : String :=
           -- the proved variant agrees with the full model: `rewrites_certified` applies
           let same := RNode.same mid midLL
           (okLL, toString (Sexp.list [.atom "ok", ofBool okLL, ofBool same,
-            mk "made" [ofNat r.made], mk "errs" (r.errs.map errSexp), mk "mid" [rnodeSexp midLL], mk "dg" [ofBool dg]]))
+            mk "made" [ofNat r.made], mk "errs" (r.errs.map errSexp), mk "mid" [rnodeSexp midLL], mk "dg" [ofBool dg],
+            -- for the histogram: what the certifier alone (without the model of the rewrites) says
+            mk "base" [ofBool (certTopDir o rtl (toPat rtl n) p')]]))
         let a1 := answer true
         if a1.1 then a1.2 else
         let a0 := answer false
